@@ -6,6 +6,12 @@ For each run: set the touched variables as `init` says, install a tracing os.env
 with an exception injected at the k-th *Python-level call made directly by the target function (or by the
 helper template_metadata)*, and report outcome, environment diff (ALL variables), env-op trace on the
 touched variables, and the number of injectable calls seen.  A run with fault = null is the fault-free run.
+
+Attribution of os.environ operations: an operation belongs to the skeleton when the Python frame that performs it
+(os.py wrappers such as os.getenv skipped) is the entry point or one of the helpers the translator inlined
+(request key "inlined").  Operations performed by any other code (collaborators, which the skeleton models as an
+opaque `Call`) are "foreign": foreign reads are ignored, foreign WRITES are reported (and put in the trace, where no
+skeleton accepts them) -- whatever variable they hit.
 """
 import json
 import os
@@ -22,17 +28,32 @@ class InjectedFault(Exception):
     pass
 
 
-class TracingEnviron(object):
-    """Wraps the real os.environ mapping; records operations on the watched variables."""
+THIS_FILE = os.path.abspath(__file__)
+OS_FILES = (os.path.abspath(os.__file__), '<frozen os>')
 
-    def __init__(self, real, watched):
+
+class TracingEnviron(object):
+    """Wraps the real os.environ mapping; records operations on the watched variables made by the target code and
+    every write made by anybody else."""
+
+    def __init__(self, real, watched, codes=()):
         object.__setattr__(self, '_real', real)
         object.__setattr__(self, '_watched', set(watched))
+        object.__setattr__(self, '_codes', set(codes))
         object.__setattr__(self, 'trace', [])
+        object.__setattr__(self, 'foreign_writes', [])
 
     def _rec(self, kind, key, ok):
-        if key in self._watched:
+        f = sys._getframe(1)
+        while f is not None and (f.f_code.co_filename in OS_FILES or os.path.abspath(f.f_code.co_filename) in (THIS_FILE,) + OS_FILES):
+            f = f.f_back
+        own = (not self._codes) or (f is not None and f.f_code in self._codes)
+        if own:
+            if key in self._watched or kind != 'get':
+                self.trace.append([kind, key, bool(ok)])
+        elif kind != 'get':
             self.trace.append([kind, key, bool(ok)])
+            self.foreign_writes.append([kind, key, '%s@%s:%d' % (f.f_code.co_name, os.path.basename(f.f_code.co_filename), f.f_lineno) if f is not None else '?'])
 
     def __getitem__(self, key):
         ok = key in self._real
@@ -55,7 +76,8 @@ class TracingEnviron(object):
 
     def setdefault(self, key, value):
         if key not in self._real:
-            self[key] = value
+            self._real[key] = value
+            self._rec('set', key, True)
         return self._real[key]
 
     def __delitem__(self, key):
@@ -68,10 +90,21 @@ class TracingEnviron(object):
         self._rec('del', key, ok)
         return self._real.pop(key, *default)
 
+    def popitem(self):
+        k, v = self._real.popitem()
+        self._rec('del', k, True)
+        return k, v
+
+    def clear(self):
+        for k in list(self._real):
+            self._rec('del', k, True)
+            del self._real[k]
+
     def update(self, *a, **k):
         d = dict(*a, **k)
         for kk, vv in d.items():
-            self[kk] = vv
+            self._real[kk] = vv
+            self._rec('set', kk, True)
 
     def __getattr__(self, name):
         return getattr(self._real, name)
@@ -153,23 +186,49 @@ def make_inputs(workdir):
     """Small, valid inputs so that both entry points run to completion without faults."""
     from astropy.io import fits
     os.makedirs(workdir, exist_ok=True)
-    # window_flist.fits with a SCORE column and what sdss_score reads
+    # window_flist.fits with every column sdss_score reads, and the fpFieldStat / psField files of each field under
+    # a PHOTO_REDUX tree, so that the real scoring stage runs through sdss_name / sdss_path and opens real files
     resolve = os.path.join(workdir, 'resolve')
     os.makedirs(resolve, exist_ok=True)
+    redux = os.path.join(workdir, 'redux')
     fl = os.path.join(resolve, 'window_flist.fits')
+    fields = [(137, 4, 100), (752, 1, 373), (94, 6, 11)]
     if not os.path.exists(fl):
-        n = 3
-        cols = [fits.Column(name='SCORE', format='E', array=np.zeros(n, dtype='f4')),
-                fits.Column(name='RUN', format='J', array=np.arange(n)),
-                fits.Column(name='CALIB_STATUS', format='5J', array=np.ones((n, 5), dtype='i4')),
-                fits.Column(name='IMAGE_STATUS', format='5J', array=np.ones((n, 5), dtype='i4')),
-                fits.Column(name='PSP_STATUS', format='5J', array=np.zeros((n, 5), dtype='i4')),
-                fits.Column(name='SKY_FRAMES_SUB', format='5E', array=np.ones((n, 5), dtype='f4')),
-                fits.Column(name='SKY', format='5E', array=np.ones((n, 5), dtype='f4')),
-                fits.Column(name='PSF_FWHM', format='5E', array=np.ones((n, 5), dtype='f4')),
-                fits.Column(name='SEEING', format='5E', array=np.ones((n, 5), dtype='f4')),
-                ]
-        fits.HDUList([fits.PrimaryHDU(), fits.BinTableHDU.from_columns(cols)]).writeto(fl)
+        n = len(fields)
+        dt = [('RUN', 'i4'), ('CAMCOL', 'i4'), ('FIELD', 'i4'), ('RERUN', 'S3'),
+              ('PHOTO_STATUS', 'i4'), ('PSP_STATUS', 'i4', (5,)), ('PSF_FWHM', 'f4', (5,)),
+              ('SKYFLUX', 'f4', (5,)), ('XBIN', 'i4'), ('YBIN', 'i4'), ('CALIB_STATUS', 'i4', (5,)),
+              ('IMAGE_STATUS', 'i4', (5,)), ('SUN_ANGLE', 'f4'), ('SCORE', 'f4'),
+              ('SKY_FRAMES_SUB', 'f4', (5,)), ('SKY', 'f4', (5,)), ('SEEING', 'f4', (5,))]
+        d = np.zeros(n, dtype=dt)
+        d['RUN'] = [f[0] for f in fields]
+        d['CAMCOL'] = [f[1] for f in fields]
+        d['FIELD'] = [f[2] for f in fields]
+        d['RERUN'] = '301'
+        d['XBIN'] = 1
+        d['YBIN'] = 1
+        d['SUN_ANGLE'] = -20.0
+        d['PSF_FWHM'] = 1.0
+        d['SKYFLUX'] = 1.0
+        tmp = fl + '.%d.tmp' % os.getpid()
+        fits.HDUList([fits.PrimaryHDU(), fits.BinTableHDU(d)]).writeto(tmp, overwrite=True)
+        os.replace(tmp, fl)
+    for run, camcol, field in fields:
+        ddir = os.path.join(redux, '301', '%d' % run, 'objcs', '%d' % camcol)
+        os.makedirs(ddir, exist_ok=True)
+        fp = os.path.join(ddir, 'fpFieldStat-%06d-%d-%04d.fit' % (run, camcol, field))
+        if not os.path.exists(fp):
+            t = np.zeros(1, dtype=[('status', 'i4')])
+            fits.HDUList([fits.PrimaryHDU(), fits.BinTableHDU(t)]).writeto(fp + '.%d.tmp' % os.getpid(), overwrite=True)
+            os.replace(fp + '.%d.tmp' % os.getpid(), fp)
+        ps = os.path.join(ddir, 'psField-%06d-%d-%04d.fit' % (run, camcol, field))
+        if not os.path.exists(ps):
+            t = np.zeros(1, dtype=[('status', 'i4', (5,)), ('psf_width', 'f4', (5,)), ('sky', 'f4', (5,))])
+            t['psf_width'] = 1.2
+            t['sky'] = 2.0
+            hdus = [fits.PrimaryHDU()] + [fits.BinTableHDU(np.zeros(1, dtype=[('x', 'i4')])) for _ in range(5)] + [fits.BinTableHDU(t)]
+            fits.HDUList(hdus).writeto(ps + '.%d.tmp' % os.getpid(), overwrite=True)
+            os.replace(ps + '.%d.tmp' % os.getpid(), ps)
     # template par + dump file
     par = os.path.join(workdir, 'tmpl.par')
     if not os.path.exists(par):
@@ -216,45 +275,96 @@ typedef struct {
         ivar = np.ones((8, npix)) * 100.0
         with open(dump, 'wb') as f:
             pickle.dump({'newflux': flux, 'newivar': ivar, 'newloglam': loglam}, f)
-    return {'resolve': resolve, 'par': par, 'par_hmf': par_hmf, 'par_opt': par_opt, 'optional_keywords': opt, 'dump': dump}
+    return {'resolve': resolve, 'redux': redux, 'par': par, 'par_hmf': par_hmf, 'par_opt': par_opt, 'optional_keywords': opt, 'dump': dump}
 
 
 def snapshot():
     return dict(os.environ._real if isinstance(os.environ, TracingEnviron) else os.environ)
 
 
-def one_run(target, paths, watched, run, workdir):
+_ORIG = {}
+
+
+def resolve_function(spec):
+    """'pydl/photoop/window.py:sdss_score' -> the function object (None if it is not a plain module-level function)"""
+    import importlib
+    rel, name = spec.split(':')
+    modname = rel[:-3].replace('/', '.')
+    if modname.endswith('.__init__'):
+        modname = modname[:-9]
+    try:
+        obj = importlib.import_module(modname)
+        for part in name.split('.'):
+            obj = getattr(obj, part)
+        return obj
+    except Exception:   # noqa: BLE001
+        return None
+
+
+def one_run(target, paths, watched, run, workdir, inlined=()):
     real_environ = os.environ
-    # initial state of the touched variables
+    # initial state of the touched variables and of the variables reachable code reads
     for v, val in run['init'].items():
         if val is None:
             real_environ.pop(v, None)
         else:
             real_environ[v] = val
     before = dict(real_environ)
-    tr = TracingEnviron(real_environ, watched)
     import pydl.photoop.window as W
     import pydl.pydlspec2d.spec1d as S
-    if target == 'window_score':
-        fn = W.window_score
+    args = run.get('args', {})
+    if 'sdss_score' not in _ORIG:
+        _ORIG['sdss_score'] = W.sdss_score
+    W.sdss_score = _ORIG['sdss_score']
+    if target in ('window_score', 'window_read'):
         codes = [W.window_score.__code__]
-        kwargs = {'rescore': bool(run.get('args', {}).get('rescore', False))}
-        call = lambda: fn(**kwargs)   # noqa: E731
+        rescore_file = os.path.join(paths['resolve'], 'window_flist_rescore.fits')
+        if os.path.exists(rescore_file):
+            os.remove(rescore_file)
+        if target == 'window_score':
+            kwargs = {'rescore': bool(args.get('rescore', False))}
+            call = lambda: W.window_score(**kwargs)   # noqa: E731
+        else:
+            codes.append(W.window_read.__code__)
+            call = lambda: W.window_read(flist=True, rescore=True)   # noqa: E731
         # sdss_score in the repository calls a function that does not exist in numpy 2; give it a
         # chance to succeed so that the straight-line path is explored too (stub only when asked)
-        if run.get('args', {}).get('stub_score', True):
+        if args.get('stub_score', True):
             W.sdss_score = lambda flist, silent=True: np.ones(len(flist[1].data), dtype='f4')
     else:
         codes = [S.template_input.__code__, S.template_metadata.__code__]
         for extra in ('_template_input',):
             if hasattr(S, extra):
                 codes.append(getattr(S, extra).__code__)
-        parfile = paths['par_hmf'] if run.get('args', {}).get('method') == 'hmf' else paths['par']
-        if run.get('args', {}).get('optional_keywords'):
+        parfile = paths['par_hmf'] if args.get('method') == 'hmf' else paths['par']
+        if args.get('optional_keywords'):
             parfile = paths['par_opt']
-        call = lambda: S.template_input(parfile, paths['dump'], flux=bool(run.get('args', {}).get('flux', False)), verbose=False)   # noqa: E731
+        # nodump: no intermediate file, the spectra are looked up through readspec (which reads the environment)
+        dump = os.path.join(workdir, 'no-such-dump-%d' % os.getpid()) if args.get('nodump') else paths['dump']
+        call = lambda: S.template_input(parfile, dump, flux=bool(args.get('flux', False)), verbose=False)   # noqa: E731
+    for spec in inlined:
+        f = resolve_function(spec)
+        if f is not None and hasattr(f, '__code__') and f.__code__ not in codes:
+            codes.append(f.__code__)
+    tr = TracingEnviron(real_environ, watched, codes)
     inj = Injector(codes, run.get('fault'))
+    real_putenv, real_unsetenv = os.putenv, os.unsetenv
+
+    def from_os_module():
+        name = sys._getframe(2).f_code.co_filename
+        return name in OS_FILES or os.path.abspath(name) in OS_FILES
+
+    def traced_putenv(k, v):
+        if not from_os_module():      # os.environ's own __setitem__ calls putenv: already recorded
+            tr._rec('set', os.fsdecode(k), True)
+        return real_putenv(k, v)
+
+    def traced_unsetenv(k):
+        if not from_os_module():
+            tr._rec('del', os.fsdecode(k), True)
+        return real_unsetenv(k)
     os.environ = tr
+    os.putenv, os.unsetenv = traced_putenv, traced_unsetenv
     outcome = 'returned'
     exc = None
     cwd = os.getcwd()
@@ -270,6 +380,7 @@ def one_run(target, paths, watched, run, workdir):
         exc = '%s: %s' % (type(e).__name__, str(e)[:100])
     finally:
         os.environ = real_environ
+        os.putenv, os.unsetenv = real_putenv, real_unsetenv
         os.chdir(cwd)
     after = dict(real_environ)
     diff = {}
@@ -277,6 +388,7 @@ def one_run(target, paths, watched, run, workdir):
         if before.get(k) != after.get(k):
             diff[k] = [before.get(k), after.get(k)]
     return {'outcome': outcome, 'exc': exc, 'env_diff': diff, 'trace': tr.trace, 'ncalls': inj.count,
+            'foreign_writes': tr.foreign_writes, 'presence': dict((e[1], e[1] in before) for e in tr.trace),
             'fired_at': inj.fired_at, 'call_names': inj.names if run.get('want_names') else None}
 
 
@@ -288,18 +400,36 @@ def main():
     req = json.load(sys.stdin)
     workdir = req['workdir']
     paths = make_inputs(workdir)
-    os.environ['PHOTO_RESOLVE_FOR_TEST'] = paths['resolve']
+    # a private copy of the resolve directory for this process: window_score writes into it
+    import shutil
+    private = os.path.join(workdir, 'resolve-p%d' % os.getpid())
+    os.makedirs(private, exist_ok=True)
+    shutil.copy(os.path.join(paths['resolve'], 'window_flist.fits'), os.path.join(private, 'window_flist.fits'))
+    paths = dict(paths, resolve=private)
     import pydl
     out = {'pydl_file': pydl.__file__, 'paths': paths, 'results': []}
     import matplotlib
     matplotlib.use('Agg')
+    # the scoring stage needs the IMAGE_STATUS maskbits, which pydl downloads on first use (no network here): give the
+    # cache the documented bit numbers of that mask (best effort; without it the real sdss_score ends at the download)
+    try:
+        import pydl.pydlutils.sdss as SD
+        if SD.maskbits is None:
+            SD.maskbits = {'IMAGE_STATUS': {'CLEAR': 0, 'CLOUDY': 1, 'UNKNOWN': 2, 'FF_PETALS': 3, 'DEAD_CCD': 4,
+                                            'NOISY_CCD': 5, 'BAD_ROTATOR': 6, 'BAD_ASTROM': 7, 'BAD_FOCUS': 8,
+                                            'SHUTTERS': 9}}
+    except Exception:   # noqa: BLE001
+        pass
     for run in req['runs']:
         init = dict(run['init'])
-        # PHOTO_RESOLVE, when set, must point at the prepared tree
-        if init.get('PHOTO_RESOLVE') is not None:
-            init['PHOTO_RESOLVE'] = paths['resolve']
+        for v, val in list(init.items()):
+            # '@dir': a usable directory; PHOTO_RESOLVE / PHOTO_REDUX point at the prepared trees
+            if val == '@dir' or (v == 'PHOTO_RESOLVE' and val is not None):
+                init[v] = paths['resolve'] if v == 'PHOTO_RESOLVE' else paths['redux'] if v == 'PHOTO_REDUX' \
+                    else os.path.join(workdir, 'env', v.lower())
         run = dict(run, init=init)
-        out['results'].append(one_run(req['target'], paths, req['vars'], run, workdir))
+        out['results'].append(one_run(req['target'], paths, req['vars'], run, workdir, req.get('inlined') or ()))
+    shutil.rmtree(private, ignore_errors=True)
     json.dump(out, real_out)
     real_out.flush()
 
